@@ -6,6 +6,7 @@ import (
 	"fmt"
 	"go/token"
 	"go/types"
+	"math/big"
 	"sort"
 	"strings"
 
@@ -403,6 +404,21 @@ func runC04(c *Ctx) {
 							if L.entails(L.linearize(x.Args[1]), L.linearize(want), 0) && L.entails(L.linearize(want), L.linearize(x.Args[1]), 0) {
 								accepted = u.bdd.Or(accepted, u.bdd.And(plainSuf, u.Atom(at)))
 							}
+						}
+					}
+					// HasSuffix(domain, d) with equal lengths is domain == d
+					for _, at := range u.AtomsOf(r.Cond) {
+						if at.Op != "eq" {
+							continue
+						}
+						L := NewLin(u)
+						a, b := L.linearize(at.Args[0]), L.linearize(at.Args[1])
+						a.addScaled(b, minusOne) // a - b == 0
+						want := L.linearize(u.Bin(token.SUB, u.Len(dom), u.Len(d), types.Typ[types.Int]))
+						neg := newLin()
+						neg.addScaled(want, minusOne) // -want
+						if isIntLike(at.Args[0]) && (L.entails(a, want, 0) && L.entails(want, a, 0) || L.entails(a, neg, 0) && L.entails(neg, a, 0)) {
+							accepted = u.bdd.Or(accepted, u.bdd.And(plainSuf, u.Atom(at)))
 						}
 					}
 					if !u.bdd.Implies(r.Cond, accepted) {
